@@ -144,7 +144,7 @@ def case_random(ctx, rng):
         perm = None if rng.random() < 0.1 else tuple(rng.sample(range(x.ndim), x.ndim))
         check_transpose(ctx, x, perm, "random")
         return
-    a, b, axa, axb = gen.contractible_pair(sr, rng, sym, True, maxnd=3 if rng.random() < 0.85 else 4, values=vals, maxd=2, p_ragged=0.1, p_hist=0.1)
+    a, b, axa, axb = gen.contractible_pair(sr, rng, sym, True, maxnd=3 if rng.random() < 0.85 else 4, values=vals, maxd=2, p_ragged=0.1, p_hist=0.1, p_mixclass=0.08)
     if rng.random() < 0.25:
         # operands that already carry several labels (outer products with a one-element odd
         # tensor: the product is even / odd with two labels)
